@@ -51,6 +51,7 @@ pub struct SimProfile {
     pub deliver_chunk_max: usize,
     pub connect_timeout_ms: u64,
     pub stop_permille: u64,
+    pub stop_while_ping_outstanding_pct: u64,
     pub stop_with_props: bool,
     pub mid_reset_permille: u64,
     pub max_steps: usize,
@@ -77,7 +78,7 @@ impl Default for SimProfile {
             discipline: Discipline::Contract, audit: false, prompt: true, n_ops: 10, op_weights: [2, 3, 3, 1, 1], op_gap_max_ms: 20, payload_extra_max: 40,
             big_payload_pct: 5, user_props_max: 2, ack_timeout_choices: vec![None], topics: vec!["a/b".into(), "a/c".into(), "d".into(), "e/f/g".into(), "hh/i".into()],
             manual_alias: false, close_permille: 0, forced_close_steps: vec![], max_conns: 4, reconnect_delay_max_ms: 50, write_chunk_max: 0, write_stall_pct: 0,
-            flush_error_pct: 0, deliver_chunk_max: 0, connect_timeout_ms: 30_000, stop_permille: 0, stop_with_props: false, mid_reset_permille: 0, max_steps: 5000,
+            flush_error_pct: 0, deliver_chunk_max: 0, connect_timeout_ms: 30_000, stop_permille: 0, stop_while_ping_outstanding_pct: 0, stop_with_props: false, mid_reset_permille: 0, max_steps: 5000,
             horizon_ms: 4_000_000, invalid_op_pct: 0, sub_id_pct: 0, retain_pct: 10, wildcard_pct: 20, shared_pct: 0, idle_tail_ms: 0, jitter_max_ms: 0, ack_timeout_max_pct: 0,
         }
     }
@@ -445,6 +446,9 @@ impl Sim {
                 if enabled { cands.push(5); }
             }
             if self.connected() && p.stop_permille > 0 && !self.stop_requested && self.wrng.chance(p.stop_permille, 1000) { cands.push(6); }
+            // a user stop while the answer to a PINGREQ is still on its way (the DISCONNECT may then be
+            // encoded before the PINGRESP arrives)
+            else if self.connected() && p.stop_while_ping_outstanding_pct > 0 && !self.stop_requested && self.broker.pingresp_pending() && self.wrng.chance(p.stop_while_ping_outstanding_pct, 100) { cands.push(6); cands.push(6); }
 
             if cands.is_empty() || (!p.prompt && p.jitter_max_ms > 0 && self.wrng.chance(1, 6)) {
                 // nothing to do now: advance time
